@@ -597,3 +597,8 @@ def run(ctx: Ctx, rep: Report, tier: str) -> None:
     rep.absorb(sub, "R13.8")
     rep.rule("R13.3")
     rep.floor(6, "elementary tests and loops of the containment operators")
+
+
+# what the later rounds (seeding rounds 2-5, refactor twins, defect hunt) added to what the check decides
+LATER_ROUNDS = "members follow the group name, every member is asked before an error about one of them may leave, the memo list is never handed out"
+EXPLANATION = EXPLANATION.replace(" Does not decide", " Later rounds added: " + LATER_ROUNDS + ". Does not decide", 1) if " Does not decide" in EXPLANATION else EXPLANATION + " Later rounds added: " + LATER_ROUNDS + "."
